@@ -81,6 +81,9 @@ func TestMeta(t *testing.T) {
 	if p.Floor != nil {
 		m["floor"] = p.Floor(tier)
 	}
+	if p.RaceUnits != nil {
+		m["race_units"] = p.RaceUnits(tier)
+	}
 	b, _ := json.Marshal(m)
 	fmt.Println("META " + string(b))
 }
